@@ -53,7 +53,7 @@ P = {
              note='Each batch runs in a child interpreter under a watchdog; a hang is inconclusive.'),
  'C16': dict(cat='exploration', ref='4/C16', technique='runtime monitoring: grid_search outcome vs exact Fraction recomputation; serial vs multi-process differential',
              text='Score tables (negative, tied, non-monotone, dyadic, beyond sys.maxsize) drive a picklable score function; parameters, records, aggregates and the best combination are recomputed exactly and compared for all 8 modes, repetitions 1..5, optimum first/middle/last, processes 1..16.',
-             note='Variance/sum on wild floats to 1e-9 relative; best decided on reported scores.'),
+             note='Float aggregates are compared to 1e-12 relative (sums / variances of wild magnitudes to 1e-9); integer scores with an integral aggregate must be exact; best decided on reported scores.'),
  'C17': dict(cat='fault_enumeration', ref='4/C17', technique='runtime monitoring: record stream vs reference; conservation (file text + held records = everything collected) at every step as a stop point; open() audit hook',
              text='Agent collectors under changing populations, None-returning functions, composite functions and windows are compared record by record with deep-copied history; file collectors writing uniquely numbered strings are checked for conservation after every step, flush cadence, number of real opens, and (thorough) the file left by a child killed after any step.',
              note='Default clear_records_on_write=True and append mode for the file clause.'),
@@ -69,10 +69,14 @@ P = {
 }
 
 
-COMMON = ('; workloads widened over nine rounds of independently seeded defects: scale regimes, input representations (numpy scalars, str '
-          'subclasses, falsy user objects), alternative call spellings, a second model / world / library kept alive, histories that contain '
-          'failures (exceptions and KeyboardInterrupt-likes from user callbacks, refused calls) with the caller carrying on, deep-copied / '
-          'restored objects; the cases of every run are spread over interpreter modes (default, python -O, warnings as errors, debug logging)')
+COMMON = ('; workloads widened over twelve rounds of independently seeded defects (521 changes) and a systematic first-order mutation of the '
+          'library: scale regimes, input representations (numpy scalars, str subclasses, falsy user objects, identifiers with pattern / template '
+          'metacharacters or unnormalised unicode, integers beyond the range of a double), alternative call spellings and less-travelled public '
+          'entry points (deprecated aliases, defaults, documented attributes read and written directly), a second model / world / library kept '
+          'alive, histories that contain failures (exceptions and KeyboardInterrupt-likes from user callbacks, refused calls) with the caller '
+          'carrying on, deep-copied / restored objects, re-entrant callbacks and systems registered from inside a timestep, histories that go on '
+          'after the model completed; the cases of every run are spread over interpreter modes (default, python -O, warnings as errors, debug '
+          'logging)')
 
 
 def main():
@@ -103,7 +107,7 @@ def main():
         'engines': [{'name': 'ecagent-runtime-monitors', 'path': 'vlib/engine.py', 'serves_properties': [c['property_id'] for c in checks],
                      'kind_free_text': 'runtime monitoring: sharded seeded workloads against the real code, reference-model / offline-log oracles in monitors/cXX.py, icontract invariants, sys.monitoring reach counters, three-valued verdicts'}],
         'checks': checks,
-        'notes': 'Exit 0 held / 1 violated (VIOLATION line + replay file) / 2 inconclusive (coverage floor, watchdog, loader mismatch). known_findings.json lists genuine defects recorded instead of repaired (KNOWN-FINDING lines) and the six repaired ones (fix: commits in /repo). selftest.py runs the checks against realistic breaks (mutants/, seeded/).',
+        'notes': 'Exit 0 held / 1 violated (VIOLATION line + replay file) / 2 inconclusive (coverage floor, watchdog, loader mismatch). known_findings.json lists genuine defects recorded instead of repaired (KNOWN-FINDING lines) and the eight repaired ones (fix: commits in /repo). selftest.py runs the checks against realistic breaks (mutants/, seeded/).',
         'not_applicable': na,
     }
     with open(os.path.join(HERE, 'MANIFEST.json'), 'w') as f:
